@@ -7,6 +7,7 @@ ASSUMPTIONS = [
     'ASSUMED: Baillie-PSW has no 64-bit counterexample (published computational result); find_prime_factor returns a prime; gcd, is_perfect_square, jacobi_symbol '
     'functional correctness; the Selfridge search returns D.mag < 2^31 (data invariant of LucasDParameter in every contract that takes one)',
     'termination is proved only where a decreases clause is given',
+    'mul_mod: the product a*leftover (mod.hh:67) is ASSUMED not to wrap (leftover < n/a needs nonlinear reasoning no installed back end completed); the other 14 sub-obligations of mul_mod are discharged',
     'mag<a>()*mag<b>() == mag<a*b>() is type-level: not applicable']
 
 M = {
@@ -123,6 +124,19 @@ def obligations(tier, seed):
                  contract_text='multiplicity(factor,n): requires n>0, factor>1: no division by zero, no wrap-around, terminates (decreases n)'))
     obs.append(D('C12.contract.gcd', 'gcd', '  uint64_t a, b;\n  f_%s(a, b);' % M['gcd'], must=('step', 'decreases|variant'),
                  contract_text='gcd(a,b): no division by zero; terminates (decreases b); result is non-zero unless both inputs are zero (value == mathematical gcd is ASSUMED)'))
+    # mul_mod: wrap-freedom and call-site preconditions (the recursive call and add_mod replaced by their contracts); own VCs, int-blast / z3 route
+    mm = M['mul_mod']
+    if tier == 'thorough': obs.append(Ob(id='C12.guarded.mul_mod', prop='C12', group='C12', prelude=PRE, wrappers=WRAPS, inputs=[('uint64_t', 'a'), ('uint64_t', 'b'), ('uint64_t', 'n')],
+                  body='''
+  ASSUME(n > 0 && b < n && (a < n || (a < 4294967296ULL && b < 4294967296ULL)));
+  uint64_t r = TARGET(a, b, n);
+  CHECK(r < n, "result-is-a-residue");
+''', kind='L', promote=False, wrap=True, budget=600,
+                  dfcc=dict(target=mm, replace=[M['add_mod']], contracts={mm: dict(CONTRACTS['mul_mod'], recursive_stub=True), M['add_mod']: CONTRACTS['add_mod']},
+                            assume=['WRAP:unsigned-mul mod.hh:67']),
+                  contract='mul_mod(a,b,n) under its call-site precondition: a*b in the fast path, a*chunk_size, num_chunks*chunk_size and a*leftover do not wrap, no division by zero, '
+                           'the recursive call and add_mod meet their preconditions, result < n.  ASSUMED (undecided after 15 min on every back end): a*leftover at mod.hh:67 does not wrap.  NOT proved: result == a*b mod n',
+                  functions_under_contract=('au::detail::mul_mod',)))
     hD = '  struct S_struct_au__detail__LucasDParameter *d;\n  f_%s(d);'
     obs.append(D('C12.contract.as_int', 'as_int', hD % M['as_int'], replace=('bool_sign',), wrap=False,
                  contract_text='as_int(D): requires D.mag < 2^31; ensures +/- mag; the int multiplication does not overflow'))
